@@ -140,7 +140,12 @@ func TestC16Automatic(t *testing.T) {
 		if rapid.IntRange(0, 2).Draw(t, "tcp") == 0 {
 			w.tcpPeers = rapid.IntRange(2, 3).Draw(t, "tcp_peers")
 		}
-		cls, err := runC16(w)
+		var cls []string
+		err := watchdog(scenarioLimit, func() error {
+			var e error
+			cls, e = runC16(w)
+			return e
+		})
 		if err != nil {
 			evid.ReplayNote("C16", "TestC16Automatic", w.describe()+"\n"+err.Error())
 			t.Fatalf("%s\n%v", w.describe(), err)
